@@ -17,7 +17,6 @@ import (
 
 	"github.com/gofiber/utils/v2"
 	"github.com/google/uuid"
-	"github.com/valyala/fasthttp"
 )
 
 // routeParser holds the path segments and param names
@@ -153,7 +152,7 @@ func RoutePatternMatch(path, pattern string, cfg ...Config) bool {
 
 	// The path is normalized like the path of a request (see configDependentPaths)
 	if config.UnescapePath {
-		path = string(fasthttp.AppendUnquotedArg(nil, utils.UnsafeBytes(path)))
+		path = string(unescapePathBytes(nil, utils.UnsafeBytes(path)))
 	}
 	// Case-sensitive routing, all to lowercase
 	if !config.CaseSensitive {
